@@ -57,6 +57,10 @@ pub enum Op {
     Codec(ProveDesc),
     /// drop this client's parameter clones (the pool keeps its own)
     DropClones,
+    /// prove and verify under caller-supplied, well-formed generators with an unusual relationship
+    /// (world::related_pedersen), in a parameter object built for this call and dropped at its end: whatever
+    /// the library remembers about an object must not outlive it
+    UnderOwnGenerators { desc: ProveDesc, variant: u8, action: usize },
 }
 
 /// Real threads under the cooperative scheduler (coop.rs): preemption inside library calls.
@@ -135,7 +139,17 @@ pub fn exec_op<G: Group>(env: &mut Env<G>, client: usize, op: &Op) -> String {
             bytes.extend_from_slice(&G::enc(p.h_base()));
             format!("gens:{}", digest(&[&bytes]))
         },
-        Op::Prove(d) => prove_desc(env, client, d).0,
+        Op::Prove(d) => {
+            // the result is a function of the arguments and of the bytes the generator serves - not of what
+            // kind of object serves them: once more through a zero-sized handle onto an equal generator
+            let direct = prove_desc(env, client, d).0;
+            let handled = crate::faultrng::with_handle(true, || prove_desc(env, client, d).0);
+            if direct == handled {
+                direct
+            } else {
+                format!("{}|rng_shape_independent:false ({})", direct, handled)
+            }
+        },
         Op::WithIdentityGenerator { desc: d, k, action } => {
             use curve25519_dalek::traits::Identity;
             use tari_bulletproofs_plus::traits::Compressable;
@@ -173,6 +187,20 @@ pub fn exec_op<G: Group>(env: &mut Env<G>, client: usize, op: &Op) -> String {
             };
             format!("identity-generator:{}|verify:{}", p_out, v_out)
         },
+        Op::UnderOwnGenerators { desc: d, variant, action } => {
+            let pc = related_pedersen::<G>(d.cfg.ext, (*variant).max(1), d.cfg.bits).expect("variant >= 1");
+            let params = custom_params::<G>(d.cfg.bits, d.cfg.cap, pc);
+            let built = build_with_params::<G>(params, &d.cfg, &d.wit);
+            let (pr, _) = prove_mode::<G>(&d.ctx, &built.statement, &built.witness, &d.rng);
+            match pr {
+                Ok(Ok(p)) => {
+                    let r = verify_one::<G>(&d.ctx, &built.statement, &p, action_from(*action));
+                    format!("own-generators:proof:{}|verify:{}", digest(&[&G::to_bytes(&p)]), digest(&[render_verify(&r).as_bytes()]))
+                },
+                Ok(Err(e)) => format!("own-generators:err:{}", err_class(&e)),
+                Err(c) => format!("own-generators:caught:{:?}", c),
+            }
+        },
         Op::ProveAfterFailedAttempt(d) => {
             let params = env.params(client, d.cfg.bits, d.cfg.cap, d.cfg.ext);
             let built = build_with_params::<G>(params.clone(), &d.cfg, &d.wit);
@@ -182,6 +210,7 @@ pub fn exec_op<G: Group>(env: &mut Env<G>, client: usize, op: &Op) -> String {
             wrong.zero_blind.clear();
             wrong.special_blind = None;
             wrong.same_as_prev.clear();
+            wrong.same_as_first.clear();
             let bad = build_with_params::<G>(params, &d.cfg, &wrong);
             let mut t = d.ctx.transcript();
             let mut r1 = crate::faultrng::FaultRng::new(RngMode::Healthy(1));
@@ -229,6 +258,13 @@ pub fn exec_op<G: Group>(env: &mut Env<G>, client: usize, op: &Op) -> String {
                                     5 => parts.b[27] ^= 16,
                                     6 if !parts.lr.is_empty() => parts.lr[0].0[18] ^= 2,
                                     7 => parts.a1[3] ^= 32,
+                                    8 => {
+                                        // announced extension degree one too large, with a spare scalar
+                                        if parts.ext_tag < 6 {
+                                            parts.ext_tag += 1;
+                                            parts.d1.push(curve25519_dalek::scalar::Scalar::from(7u64).to_bytes());
+                                        }
+                                    },
                                     _ => parts.r1[0] ^= 1,
                                 }
                                 if let Ok(q) = G::from_bytes(&parts.to_bytes()) {
@@ -253,7 +289,23 @@ pub fn exec_op<G: Group>(env: &mut Env<G>, client: usize, op: &Op) -> String {
                 t.challenge_bytes(b"bpsim state probe", &mut after);
                 states.extend_from_slice(&after);
             }
-            format!("verify:{}:t{}", digest(&[render_verify(&r).as_bytes()]), digest(&[&states]))
+            // the same call with every statement rebuilt over its own, separately constructed parameter
+            // object (equal in value, nothing shared): whether arguments share memory is not an argument
+            let budget: usize = members.iter().map(|d| d.cfg.bits * d.cfg.cap).sum();
+            let mut independent = true;
+            if G::NAME == "free" || budget <= 128 {
+                let sts2: Vec<RangeStatement<G>> = members
+                    .iter()
+                    .map(|d| {
+                        let fresh = G::params(d.cfg.bits, d.cfg.cap, G::pedersen(d.cfg.ext)).expect("params");
+                        build_with_params::<G>(fresh, &d.cfg, &d.wit).statement
+                    })
+                    .collect();
+                let mut trs2: Vec<merlin::Transcript> = ctxs.iter().map(|c| c.transcript()).collect();
+                let r2 = guarded(|| G::verify(&mut trs2, &sts2, &proofs, a));
+                independent = render_verify(&r2) == render_verify(&r);
+            }
+            format!("verify:{}:t{}|sharing_independent:{}", digest(&[render_verify(&r).as_bytes()]), digest(&[&states]), independent)
         },
         Op::Codec(d) => match prove_desc(env, client, d).1 {
             Some((_, p)) => {
@@ -408,6 +460,33 @@ fn run<G: Group>(sc: &Scenario, st: &mut RunStats) -> Vec<Violation> {
                 ));
                 return out;
             }
+            if ra[c][k].contains("sharing_independent:false") || rb[c][k].contains("sharing_independent:false") {
+                out.push(Violation::new(
+                    "result_depends_on_object_sharing",
+                    "verify",
+                    format!(
+                        "client {} op {} ({}): the batch gives another result when its statements hold clones of one parameter object than when each holds its own, equal, separately constructed one",
+                        c,
+                        k,
+                        short(&sc.clients[c][k])
+                    ),
+                ));
+                return out;
+            }
+            if ra[c][k].contains("rng_shape_independent:false") || rb[c][k].contains("rng_shape_independent:false") {
+                out.push(Violation::new(
+                    "result_depends_on_the_kind_of_rng_object",
+                    "prove",
+                    format!(
+                        "client {} op {} ({}): the prover gives another result when the same byte stream reaches it through a zero-sized handle than when it holds the generator itself: {}",
+                        c,
+                        k,
+                        short(&sc.clients[c][k]),
+                        ra[c][k]
+                    ),
+                ));
+                return out;
+            }
             if rb[c][k].contains(" / repeat: ") {
                 out.push(Violation::new(
                     "repeating_a_call_changes_its_result",
@@ -445,6 +524,7 @@ fn op_kind(op: &Op) -> String {
         Op::WithIdentityGenerator { .. } => "with_identity_generator",
         Op::Codec(_) => "codec",
         Op::DropClones => "drop",
+        Op::UnderOwnGenerators { .. } => "under_own_generators",
     }
     .to_string()
 }
@@ -501,7 +581,7 @@ impl Check for C18 {
     }
 
     fn rule(&self) -> String {
-        "native part: each seeded run has 3-6 logical clients with scripts of 5-30 self-contained operations (construct parameters, prove with a per-operation seeded RNG, verify singly and in batches of 1-4 with optional corruption, encode/decode, drop parameter clones) over a shared pool of parameter objects (clones share one Arc table); 10% of prover operations crash through an injected RNG panic (caught); the same scripts run under two different seeded interleavings and every operation is repeated once; a sample of operations also runs as the first library call of a fresh process, among them pairs of a batch and its near twin (one bit of one point encoding changed) verified one after the other in this process; oracle: an operation's result digest (proof bytes, Ok/Err class, masks) is a function of its descriptor only. Schedule part: Miri interprets 2-3 real threads (racing first use of the statics, sharing one precomputed table, thorough: proving and verifying concurrently) under seeded schedules with its data-race detector on and compares every thread's results with a single-threaded reference. One evaluation = one operation executed or one Miri execution; distinct = distinct event-log hashes + distinct schedule signatures.".into()
+        "native part: each seeded run has 3-6 logical clients with scripts of 5-30 self-contained operations (construct parameters, prove with a per-operation seeded RNG, verify singly and in batches of 1-4 with optional corruption, encode/decode, drop parameter clones) over a shared pool of parameter objects (clones share one Arc table); 10% of prover operations crash through an injected RNG panic (caught); the same scripts run under two different seeded interleavings and every operation is repeated once; a sample of operations also runs as the first library call of a fresh process, among them pairs of a batch and its near twin (one bit of one point encoding changed) verified one after the other in this process; oracle: an operation's result digest (proof bytes, Ok/Err class, masks) is a function of its descriptor only. Schedule part: Miri interprets 2-3 real threads (racing first use of the statics, sharing one precomputed table, thorough: proving and verifying concurrently) under seeded schedules with its data-race detector on and compares every thread's results with a single-threaded reference. One evaluation = one operation executed or one Miri execution; distinct = distinct event-log hashes + distinct schedule signatures. Object identity is not an argument: every verify operation is repeated with each statement rebuilt over its own separately constructed parameter object, every prove operation is repeated with the same byte stream served through a zero-sized handle, and pairs of operations under caller-supplied generators in parameter objects that live for one call only are compared with a fresh process.".into()
     }
 
     fn assumptions(&self) -> Vec<String> {
@@ -554,8 +634,18 @@ impl Check for C18 {
                         Op::Construct { bits: c.bits, cap: c.cap, ext: c.ext }
                     },
                     1 => {
-                        if rng.chance(1, 2) {
+                        if rng.chance(1, 3) {
                             Op::DropClones
+                        } else if rng.chance(1, 2) {
+                            // two calls in a row over the same shape under different own generators
+                            let d = gen_prove(rng, max_full, false);
+                            let (va, vb) = (1 + rng.below(5) as u8, 1 + rng.below(5) as u8);
+                            let vb = if vb == va { 1 + (va % 5) } else { vb };
+                            let action = rng.usize_below(3);
+                            let mut d2 = d.clone();
+                            d2.wit = WitnessSpec::generate(rng, &d.cfg, true);
+                            before = Some(Op::UnderOwnGenerators { desc: d, variant: va, action });
+                            Op::UnderOwnGenerators { desc: d2, variant: vb, action }
                         } else {
                             let d = gen_prove(rng, max_full, false);
                             let k = if rng.chance(1, 4) { None } else { Some(rng.usize_below(d.cfg.ext)) };
@@ -588,7 +678,7 @@ impl Check for C18 {
                             members.push(d);
                         }
                         let corrupt = if rng.chance(1, 3) { Some(rng.usize_below(k)) } else { None };
-                        let corrupt_kind = rng.below(8) as u8;
+                        let corrupt_kind = rng.below(9) as u8;
                         let action = rng.usize_below(3);
                         if corrupt.is_some() && corrupt_kind >= 3 {
                             // a near twin and the genuine batch next to each other, in either order
